@@ -6,8 +6,11 @@
   The model is tied to the Go code by `Gen.Cvss` (regenerated tables) and by
   the correspondence run of `./check C18`.
 -/
-import ClairModel.Proofs.Cvss
+import ClairModel.Proofs.CvssSweep30
+import ClairModel.Proofs.CvssSweep31
 import ClairModel.Proofs.CvssV2
+import ClairModel.Proofs.CvssRange
+import ClairModel.Proofs.CvssTables
 
 namespace ClairModel.Props.C18
 open ClairModel ClairModel.Cvss ClairModel.CvssSpec ClairModel.Gen.Cvss
@@ -64,5 +67,107 @@ theorem osv_severity_eq_band_v2 {av ac au c i a : Nat}
     ∃ k, score2 (mk2 av ac au c i a) = some k ∧
       osv2 (print2 (mk2 av ac au c i a)) = inBands osvDocV2 k :=
   (v2_base_facts hav hac hau hc hi ha).2
+
+/-! ### tables (re-decided against the regenerated `Gen.Cvss` on every run) -/
+
+/-- `v3Weights`, indexed through the valid-value strings the way `V3.Score`
+    does, holds the weights of specification 7.4 for every value the grammar
+    admits (Modified metrics: every value but X, which the code resolves to
+    the Base metric before the lookup). -/
+theorem weights_match_spec_v3 : ∀ m < 22, ∀ b ∈ g3 m, (14 ≤ m → b ≠ cX) → lk3 m b = w3 m b :=
+  lk3_eq_w3_all
+
+/-- `v2Weights`, indexed by `strings.Index` of the unparsed value in the
+    valid-value string, holds the weights of the v2 guide for every value of
+    every metric (including the NaN-padded rows). -/
+theorem weights_match_spec_v2 : ∀ m < 14, ∀ val ∈ v2GrammarValues.getD m [], lk2 m val = w2 m val :=
+  lk2_eq_w2
+
+/-- the switch tables of `fromCVSS3` / `fromCVSS2` hold the specification
+    weights for the base metrics and ignore exactly the non-base metrics -/
+theorem osv_tables_match_spec :
+    (∀ k < 8, ∀ b ∈ g3 k, osvW3 k b = if k = 4 then some (if b = cC then 1000 else 0) else t3 k b) ∧
+    (∀ k < 6, ∀ b ∈ g2 k, osvW2 k b = t2 k [b]) ∧
+    osv3Ignored = v3Names.drop 8 ∧ osv2Ignored = v2Names.drop 6 :=
+  ⟨osvW3_eq_t3, osvW2_eq_t2, osv3_ignored, osv2_ignored⟩
+
+/-- the value sets of the ragel grammars (as modelled) are the valid-value
+    strings of the stringer tables (v3, v4), and the packed v2 bytes unpack to
+    the value that was parsed -/
+theorem grammar_values_match_valid_tables :
+    (∀ m < 22, (∀ b ∈ g3 m, b ∈ v3Valid.getD m []) ∧ (∀ b ∈ v3Valid.getD m [], b ∈ g3 m)) ∧
+    (∀ m < 31, (∀ b ∈ v4GrammarValues.getD m [], b ∈ v4Valid.getD m []) ∧
+      (∀ b ∈ v4Valid.getD m [], b ∈ v4GrammarValues.getD m [])) ∧
+    (∀ m < 14, ∀ val ∈ v2GrammarValues.getD m [], v2Unparse m (v2Pack m val) = val ∧ v2Pack m val ≠ 0) :=
+  ⟨grammar3_eq_valid, grammar4_eq_valid, v2_pack_unpack⟩
+
+/-! ### ratings -/
+
+/-- `QualitativeScore` follows the published rating scale on every score 0.0 … 10.0 -/
+theorem rating_follows_published_bands : ∀ n < 101, some (rating (n : Nat)) = inBands ratingBands (n : Nat) :=
+  rating_bands
+
+/-- the published bands cover 0.0 … 10.0 without overlap: every score lies in exactly one -/
+theorem bands_partition :
+    ∀ n : Nat, n < 101 → (ratingBands.filter fun b => decide (b.1 ≤ (n : Int) ∧ (n : Int) ≤ b.2.1)).length = 1 :=
+  bands_one
+
+/-- the severity switches of `fromCVSS3` / `fromCVSS2` are the tables of
+    docs/concepts/severity_mapping.md on every one-decimal score -/
+theorem osv_bands_match_documentation :
+    (∀ n < 101, bandOfQ osv3Cases osv3Default (tenth (n : Nat)) = inBands osvDocV3 (n : Nat)) ∧
+    (∀ n < 101, bandOfQ osv2Cases osv2Default (tenth (n : Nat)) = inBands osvDocV2 (n : Nat)) :=
+  ⟨osv3_bands, osv2_bands⟩
+
+/-! ### ranges and zero -/
+
+/-- every score `V3.Score` returns — base, temporal or environmental, any
+    metric combination — is k/10 with 0 ≤ k ≤ 100 -/
+theorem v3_score_range {v : Vec} {k : Int} (h : score3 v = some k) : 0 ≤ k ∧ k ≤ 100 :=
+  score3_range h
+
+/-- every score `V4.Score` returns is k/10 with 0 ≤ k ≤ 100 -/
+theorem v4_score_range (v : Vec) : 0 ≤ score4 v ∧ score4 v ≤ 100 :=
+  score4_range v
+
+/-- a v3 vector without environmental metrics whose C, I, A are None scores 0.0 -/
+theorem v3_zero_of_no_impact (v : Vec) (henv : v3Environmental v = false)
+    (hc : v.get 5 = cN) (hi : v.get 6 = cN) (ha : v.get 7 = cN) {k : Int} (h : score3 v = some k) : k = 0 :=
+  score3_zero_of_no_impact v henv hc hi ha h
+
+/-
+  Full statement for v4 (specification 8.2): a vector whose impact metrics,
+  after the Modified metrics override the Base ones, are all None scores 0.0:
+
+      ∀ v, v4EffectiveNoImpact v = true → score4 v = 0
+
+  The code does not satisfy it (`V4.Score` reads the Base metrics only):
+-/
+
+/-- counterexample: all Modified impact metrics N over a Base vector of all H scores 10.0 -/
+theorem v4_zero_of_no_impact_counterexample :
+    ∃ v, parse4 v4ModifiedWitness = some v ∧ v4EffectiveNoImpact v = true ∧ score4 v = 100 :=
+  v4_witness
+
+/-- what holds: no impact scores 0.0 when no Modified impact metric is defined
+    (absent or X), i.e. when the Base metrics themselves are all None -/
+theorem v4_zero_of_no_impact_partial (v : Vec) (h : v4EffectiveNoImpact v = true)
+    (hm : ∀ m ∈ [20, 21, 22, 23, 24, 25], v.get m = 0 ∨ v.get m = cX) : score4 v = 0 := by
+  apply score4_zero_of_no_base_impact
+  simp only [v4EffectiveNoImpact, List.all_cons, List.all_nil, Bool.and_true, Bool.and_eq_true,
+    decide_eq_true_eq, Nat.reduceAdd] at h
+  have h20 := hm 20 (by simp)
+  have h21 := hm 21 (by simp)
+  have h22 := hm 22 (by simp)
+  have h23 := hm 23 (by simp)
+  have h24 := hm 24 (by simp)
+  have h25 := hm 25 (by simp)
+  simp only [h20, h21, h22, h23, h24, h25, if_true] at h
+  simp [v4NoBaseImpact, h]
+
+/-- the v2 environmental equations (published and coded alike) leave [0, 10]:
+    AV:L/AC:H/Au:M/C:P/I:N/A:N/CDP:ND/TD:ND/CR:L/IR:ND/AR:ND scores −0.2 -/
+theorem v2_environmental_score_negative_example : (parse2 v2NegativeWitness).bind score2 = some (-2) :=
+  v2_negative
 
 end ClairModel.Props.C18
